@@ -120,3 +120,39 @@ func VH_C13_snps_aggregate() {
 		}
 	}
 }
+
+// VH_C13_snps_order: aggregate rows are ordered by genomic position (numerically), then allele.
+func VH_C13_snps_order() {
+	// three sequences with SNPs at positions chosen from {2, 9, 10, 11, 100}
+	posset := []int{2, 9, 10, 11, 100}
+	N := 3
+	cA := make(chan snpLine, N)
+	for n := 0; n < N; n++ {
+		p1 := posset[vChoice(vName("p", n, 0), len(posset))]
+		p2 := posset[vChoice(vName("p", n, 1), len(posset))]
+		vAssume(p1 < p2)
+		cA <- snpLine{queryname: "s" + strconv.Itoa(n), idx: n, snps: []string{"A" + strconv.Itoa(p1) + "C", "A" + strconv.Itoa(p2) + string("CGT"[n])}}
+	}
+	close(cA)
+	w := &vCapture{}
+	cErr := make(chan error, 8)
+	cDone := make(chan bool, 1)
+	aggregateWriteOutput(w, 0, cA, cErr, cDone)
+	vAssert("C13.order.writer-done", len(cDone) == 1 && len(cErr) == 0)
+	out := string(w.buf)
+	last := 0
+	i := len("SNP,frequency\n")
+	for i < len(out) {
+		j := i
+		for out[j] != ',' {
+			j++
+		}
+		pos, err := strconv.Atoi(out[i+1 : j-1])
+		vAssert("C13.order.rows-in-numeric-position-order", err == nil && pos >= last)
+		last = pos
+		for out[j] != '\n' {
+			j++
+		}
+		i = j + 1
+	}
+}
